@@ -814,6 +814,94 @@ def wrapper_alphabet():
             ["ren", [["d0", "d1"]]]]
 
 
+
+# ------------------------------------------------------------------ domain scoping over the hierarchy (kind d)
+DS_NAMES = ["a", "b", "c"]
+
+
+def gen_dtree(rng, depth, top=True):
+    """a fragment: domains it defines itself (names 0..2; the top defines all three), late-bound uses in its own comb
+    statements [(kind, name)] (kind 0 ClockSignal, 1 ResetSignal), subfragments"""
+    defs = [0, 1, 2] if top else [n for n in range(3) if rng.random() < 0.35]
+    rng.shuffle(defs)
+    uses = [[rng.randrange(2), rng.randrange(3)] for _ in range(rng.choice((0, 1, 1, 2, 3)))]
+    nsub = 0 if depth == 0 else rng.choice((0, 1, 1, 2, 2, 3))
+    return {"defs": defs, "uses": uses, "subs": [gen_dtree(rng, depth - 1, False) for _ in range(nsub)]}
+
+
+def dscope_cases(rng, n):
+    out = []
+    # directed: the parent's use after one / two subfragments that redefine the name (the last one, the first one, a
+    # grandchild), for both kinds
+    for kind in (0, 1):
+        leaf = lambda defs: {"defs": defs, "uses": [[kind, 0]], "subs": []}
+        for subs in ([leaf([0])], [leaf([]), leaf([0])], [leaf([0]), leaf([])],
+                     [{"defs": [], "uses": [], "subs": [leaf([0])]}], [leaf([0]), leaf([0, 1])]):
+            out.append({"k": "d", "tree": {"defs": [0, 1, 2], "uses": [[kind, 0], [kind, 1]], "subs": subs}})
+    for _ in range(n):
+        out.append({"k": "d", "tree": gen_dtree(rng, rng.choice((1, 2, 2, 3)))})
+    return out
+
+
+def dscope_run(case):
+    """which ClockDomain object each late-bound use follows, observed by pulsing every clk / rst in a simulation"""
+    from amaranth.hdl import Module, Signal, ClockDomain, ClockSignal, ResetSignal
+    from amaranth.sim import Simulator
+    cds, probes = [], []
+
+    def build(node):
+        m = Module()
+        for name in node["defs"]:
+            cd = ClockDomain(DS_NAMES[name])
+            m.domains += cd
+            cds.append(cd)
+        for kind, name in node["uses"]:
+            p = Signal(name=f"p{len(probes)}")
+            probes.append((p, kind))
+            m.d.comb += p.eq(ClockSignal(DS_NAMES[name]) if kind == 0 else ResetSignal(DS_NAMES[name]))
+        subs = [build(sub) for sub in node["subs"]]     # pre-order ids: own definitions first
+        for sm in subs:
+            m.submodules += sm
+        return m
+    top = build(case["tree"])
+    hits = [[] for _ in probes]
+    sim = Simulator(top)
+
+    async def tb(ctx):
+        for j, cd in enumerate(cds):
+            for kind, sig in ((0, cd.clk), (1, cd.rst)):
+                ctx.set(sig, 1)
+                for i, (p, pk) in enumerate(probes):
+                    if pk == kind and ctx.get(p) == 1:
+                        hits[i].append(j)
+                ctx.set(sig, 0)
+    sim.add_testbench(tb)
+    sim.run()
+    return [h[0] if len(h) == 1 else (-1 if not h else -2) for h in hits]
+
+
+def dscope_term(tree):
+    nid = [0]
+
+    def go(node):
+        defs = []
+        for name in node["defs"]:
+            defs.append(f"({name}%nat, {nid[0]}%nat)")
+            nid[0] += 1
+        uses = "; ".join(f"{name}%nat" for _, name in node["uses"])
+        subs = "; ".join(go(sub) for sub in node["subs"])
+        return f"(DN [{'; '.join(defs)}] [{uses}] [{subs}])"
+    return go(tree)
+
+
+def dscope_depth(node):
+    return 1 + max([dscope_depth(x) for x in node["subs"]], default=0)
+
+
+def dscope_shadows(node, top=True):
+    return (not top and bool(node["defs"])) or any(dscope_shadows(x, False) for x in node["subs"])
+
+
 def gen_cases(tier, seed):
     rng = random.Random(seed * 7919 + 3)
     thorough = tier == "thorough"
@@ -861,6 +949,7 @@ def gen_cases(tier, seed):
     if any(f.get("id") == WIDE and f.get("property") == ID and f.get("status") == "open" for f in C.load_known_findings()):
         for v in range(3):
             cases.append(wide_case(v, rng))
+    cases += dscope_cases(rng, 600 if thorough else 150)
     return cases
 
 
@@ -953,6 +1042,8 @@ def run_impl_inner(case):
     from amaranth.hdl import Cat
     from amaranth.hdl._ir import Fragment
     k = case["k"]
+    if k == "d":
+        return dscope_run(case)
     shapes = case_shapes(case)
     if k == "x":
         return enc_frag(elaborate(case, True), shapes)
@@ -1033,6 +1124,8 @@ def all_entries(orig):
 
 
 def coq_term(case):
+    if case["k"] == "d":
+        return f"(1 :: k_domscope {dscope_term(case['tree'])})"
     shapes = case_shapes(case)
     ids = dom_ids(case)
     k = case["k"]
@@ -1059,6 +1152,8 @@ def wr_sig(node):
 
 
 def classify(c):
+    if c["k"] == "d":
+        return f"d:depth={dscope_depth(c['tree'])}:shadow={int(dscope_shadows(c['tree']))}"
     kinds = "".join("nsa"[d["rst"]] + ("+" if d["pos"] else "-") for d in c["doms"])
     nwr = sum(1 for ch in wr_sig(c["tree"]) if ch in "REN")
     mem = ":mem" if c.get("memlist") else ""
@@ -1070,6 +1165,8 @@ def classify(c):
 def nontrivial(c, obs):
     if not isinstance(obs, list) or not obs:
         return False
+    if c["k"] == "d":
+        return obs[0] == 1 and len(set(obs[1:])) >= 2 and dscope_shadows(c["tree"])
     if c["k"] == "x":
         return obs[0] == 1 and any(ch in "REN" for ch in wr_sig(c["tree"]))
     if c["k"] == "c":
@@ -1121,6 +1218,10 @@ def shrink(c, obs, model):
 
 
 def explain(c):
+    if c["k"] == "d":
+        return ("hierarchy of modules; each node defines ClockDomains named by `defs` (a/b/c; ids in pre-order), and drives "
+                "one probe per entry of `uses` with ClockSignal(name) (kind 0) or ResetSignal(name) (kind 1); observed = for "
+                "each probe (pre-order) the id of the ClockDomain whose clk / rst it follows in a simulation")
     return ("signals " + ", ".join(f"{nm}:{'s' if s[1] else 'u'}{s[0]} init={s[2]}{' reset_less' if s[3] else ''}"
                                    for nm, s in zip(c["names"], c["sigs"]))
             + "; domains " + ", ".join(f"{d['name']}({'pos' if d['pos'] else 'neg'},{['no', 'sync', 'async'][d['rst']]} reset)"
